@@ -194,7 +194,7 @@ def run_one(job):
     ev.append({"e": "exit", "rc": rc if isinstance(rc, int) else -99, "outBlank": res["out"].strip() == "",
                "namesFrom": fb in res["err"], "namesTo": tb in res["err"], "raised": bool(res["exc"])})
     return {"cfg": job["cfg"], "ev": ev, "exc": res["exc"], "where": res.get("where", ""),
-            "out_digest": digest(res["out"]), "out": res["out"] if job.get("keep_out") else "", "rc": rc,
+            "out_digest": digest(res["out"].rstrip()), "out": res["out"] if job.get("keep_out") else "", "rc": rc,
             "err": res["err"][:300]}
 
 
